@@ -25,12 +25,10 @@ Print Assumptions C06_normalize_plain_unchanged.
 
 Theorem C06_normalize_strips_one_pair : forall q q' x,
   (q = "`"%char /\ q' = "`"%char) \/ (q = """"%char /\ q' = """"%char) \/ (q = "["%char /\ q' = "]"%char) ->
-  x <> "" -> first_is_delim x = false ->
-  normalize_id (String q (x ++ String q' "")) = x.
+  x <> "" -> normalize_id (String q (x ++ String q' "")) = x.
 Proof. exact normalize_strips_one_pair. Qed.
 Print Assumptions C06_normalize_strips_one_pair.
 
-(* the code strips a SECOND pair from a doubly delimited name such as "[a]" (it keeps looping over the delimiter styles):
-   witness of finding D9 *)
-Theorem C06_nested_delimiters_refuted : exists s, normalize_id s <> take (String.length s - 2) (drop 1 s) /\ s = """[a]""".
-Proof. exists """[a]""". split; [vm_compute; discriminate | reflexivity]. Qed.
+(* in particular a doubly delimited name keeps its inner pair (defect D9, fixed) *)
+Example C06_nested_delimiters_keep_inner_pair : normalize_id """[a]""" = "[a]".
+Proof. vm_compute. reflexivity. Qed.
